@@ -75,6 +75,12 @@ CLAIMED.update({
             "ref/text.py (renderer, omission rules, corruptions); 'rejected' = any exception"),
 })
 
+CLAIMED.update({
+    "C12": ("each checker's stdout verdict vs. an independent criterion evaluated on the known answer spec (soundness: OK => criterion); counterexample words checked for genuineness, polarity, minimality",
+            "14 clauses covering all listed checkers; answers: reference key, single mutation, independent object, ill-formed text; instances from the object generators",
+            "criteria use only ref/* semantics; PDA instances within closure limit 60; completeness of checkers is not asserted here (C13)"),
+})
+
 NOT_YET = {
 }
 
